@@ -234,13 +234,15 @@ def _build(events, partial):
                 elif how == "new":
                     tr = rqcoq.transform({"Compute": d["compute"]})
                     emit("ODeclare-new", lop("ODeclare %d %s %s %s false" % (d["node"], c_expr(tr[2]), c_window(tr[3]), "true" if tr[4] else "false")),
-                         ["(BCid %d %d)" % (d["node"], tr[1]), "(BTop %s)" % c_transform(tr)])
+                         # (the Compute the code pushed is the operation's own parameters plus the id: BCid says it all)
+                         ["(BCid %d %d)" % (d["node"], tr[1])])
                 else:
                     raise TraceError("declare how=%r" % (how,))
                 i += 1
             elif k == "push":
                 tr = push_at(i, "TSelect", "TFilter", "TAggregate", "TSort", "TTake")
-                emit("OPush", lop("OPush %s" % c_transform(tr)), ["(BTop %s)" % c_transform(tr)])
+                # (the transform is the operation's parameter: an observation of it would only repeat the term)
+                emit("OPush", lop("OPush %s" % c_transform(tr)), [])
                 i += 1
             elif k == "push_select":
                 # the input of push_select; its output is the relation_end event that follows (none when push_select failed)
@@ -427,5 +429,5 @@ def perturbations(events, rng):
     return out
 
 
-COQ_HEADER = ("From Coq Require Import List NArith Bool.\nFrom PV Require Import Lib.ListX Model.Rq Model.RqWf Model.Lowerer Model.RqEq Model.LowererTrace Model.LowererVis Model.LowererSelect Model.LowererEntries.\n"
+COQ_HEADER = ("From Coq Require Import List NArith Bool.\nFrom PV Require Import Lib.ListX Model.Rq Model.RqWf Model.RqAgg Model.Lowerer Model.RqEq Model.LowererTrace Model.LowererVis Model.LowererSelect Model.LowererEntries.\n"
               "Import ListNotations.\nLocal Open Scope N_scope.\n")
